@@ -31,6 +31,7 @@ SenderEv(s) ==
   \/ Int("adm.release", s, SRelease(s) /\ (Strict => Ev.d = adm.cnt))
   \/ Int("marker.iter", s, SMarkerLoad(s) \/ SMarkerRetry(s))
   \/ Int("marker.cas", s, SMarkerCas(s) /\ (Strict => (Ev.d = 1) = (spc'[s] = "markerEnq")))
+  \/ (Live /\ SMarkerEnq(s) /\ Stay)      \* no point between the marker CAS and the enqueue
   \/ Obs("obs.send_ret", s, SReturn(s) /\ sk[s] = Ev.k /\ (Ev.d = 1) = (sprev[s] = "ok"))
 
 DrainerEv(d) ==
@@ -39,6 +40,7 @@ DrainerEv(d) ==
   \/ Int("drain.status", d, DStatus(d))
   \/ Int("marker.iter", d, DMarkerLoad(d) \/ DMarkerRetry(d))
   \/ Int("marker.cas", d, DMarkerCas(d) /\ (Strict => (Ev.d = 1) = (dpc'[d] = "markerEnq")))
+  \/ (Live /\ DMarkerEnq(d) /\ Stay)
   \/ Obs("obs.drain_ret", d, DReturn(d))
 
 ConsumerEv ==
@@ -47,6 +49,8 @@ ConsumerEv ==
   \/ Obs("obs.consume", "c", Ev.kind = "empty" /\ ~rxClosed /\ q = <<>> /\ UNCHANGED vars)
   \/ Obs("obs.quit", "c", ConsumerQuit)
   \/ Obs("obs.ports_dropped", "c", CDropPorts)
+  \* a real actor task drops its ports without an observation of its own
+  \/ (~Strict /\ Live /\ CDropPorts /\ Stay)
   \/ Int("status.set", "c", \E v \in {Stopping, Stopped} : CStatus(v) /\ (Strict => Ev.d = v))
 
 WrongType == Obs("obs.wrong_ret", "w1", Ev.d = 1 /\ UNCHANGED vars)
